@@ -10,7 +10,8 @@
 From Coq Require Import List NArith ZArith Arith Bool.
 From Dimod Require Import Gen.Gen_Codec Model.Codec Model.ChkC09 Proofs.CodecBase Proofs.CodecFrame Proofs.CodecBqm Proofs.CodecBqmTop
   Proofs.CodecLabel Proofs.CodecJson Proofs.CodecBqmFull Proofs.CodecQm Proofs.CodecExpr
-  Model.Rebuild Proofs.RebuildFacts Proofs.RebuildUpsert Gen.Gen_Loaders Model.Loaders Proofs.CodecAdj.
+  Model.Rebuild Proofs.RebuildFacts Proofs.RebuildUpsert Gen.Gen_Loaders Model.Loaders Proofs.CodecAdj
+  Model.CodecEq Model.CqmFile Proofs.CqmFileFacts Proofs.CqmArchive Model.CqmFile2 Proofs.CqmArchive2.
 Import ListNotations.
 
 Theorem le_decode_encode : forall n x, (x < 256 ^ N.of_nat n)%N -> le_dec (le_enc n x) = x.
@@ -138,4 +139,109 @@ Example bqm_example_roundtrip :
              [[(1%N, [0;0;0;0;0;0;8;64]%N)]; [(0%N, [0;0;0;0;0;0;8;64]%N)]; []]
              (Some [LStr [97]%N; LStr [98]%N; LTup [LStr [116]%N; LInt 1]]) in
   length (bqm_encode f) = 324 /\ run bqm_decode (bqm_encode f) = Ok f.
+Proof. vm_compute. split; reflexivity. Qed.
+
+
+(* ---- CQM serialization versions 1.0 - 1.3 (read by ConstrainedQuadraticModel._from_file_legacy, modelled in
+   Model/CqmFile.v on the list of archive members).  The objective member of such a file lists every variable of the
+   model; the loaded model then has exactly the objective's variables, in the objective's order and with its vartypes
+   and bounds, for any number of constraints and whatever order the reader visits them in (it iterates a set) *)
+Theorem legacy_vars_objective : forall obj cons,
+  NoDup (map fst (nx_vars obj)) ->
+  (forall c, In c cons -> incl (map fst (nx_vars c)) (map fst (nx_vars obj))) ->
+  legacy_vars obj cons = nx_vars obj.
+Proof. exact CqmFileFacts.legacy_vars_objective. Qed.
+Print Assumptions legacy_vars_objective.
+
+Theorem legacy_vars_order_independent : forall obj cons cons',
+  NoDup (map fst (nx_vars obj)) ->
+  (forall c, In c cons -> incl (map fst (nx_vars c)) (map fst (nx_vars obj))) ->
+  (forall c, In c cons' -> In c cons) ->
+  legacy_vars obj cons' = legacy_vars obj cons.
+Proof. exact CqmFileFacts.legacy_vars_order_independent. Qed.
+Print Assumptions legacy_vars_order_independent.
+
+(* a reader that loads the constraints before the objective is a different function (two variables, one constraint
+   over the second one): the model separates the two orders *)
+Theorem legacy_constraints_first_differs :
+  NoDup (map fst (nx_vars ex_obj))
+  /\ (forall c, In c [ex_con] -> incl (map fst (nx_vars c)) (map fst (nx_vars ex_obj)))
+  /\ legacy_vars ex_obj [ex_con] = nx_vars ex_obj
+  /\ constraints_first_vars ex_obj [ex_con] <> nx_vars ex_obj.
+Proof. exact CqmFileFacts.constraints_first_differs. Qed.
+Print Assumptions legacy_constraints_first_differs.
+
+(* the constraint directory of a member name "constraints/<json label>/<leaf>" is recovered for every label text,
+   including labels that contain '/' themselves *)
+Theorem constraint_dir_member : forall dir leaf, dir <> [] ->
+  forallb (fun c => negb (N.eqb c SLASH)) leaf = true ->
+  constraint_dir (CONSTRAINTS_DIR ++ dir ++ [SLASH] ++ leaf) = Some dir.
+Proof. exact CqmFileFacts.constraint_dir_member. Qed.
+Print Assumptions constraint_dir_member.
+
+(* QuadraticModel.from_file with the header's "type" entry ignored (as the code does): inverse of to_file *)
+Theorem qm_decode_any_encode : forall f, QmWF f -> run qm_decode_any (qm_encode f) = Ok f.
+Proof. exact CqmArchive.qm_decode_any_encode. Qed.
+Print Assumptions qm_decode_any_encode.
+
+(* fileview.load's dispatch on the magic prefix + the member decoders, for QM and BQM members *)
+Theorem member_decode_encode : forall m, MemberWF m -> member_decode (member_encode m) = Ok (member_nexpr m).
+Proof. exact CqmArchive.member_decode_encode. Qed.
+Print Assumptions member_decode_encode.
+
+(* WHOLE version-1.x archives, any number of variables and constraints: the reader applied to the members the writer
+   produces (objective, constraints/<json label>/{lhs, rhs, sense, discrete[, weight, penalty]}) returns the saved
+   objective, every constraint with its label (also labels containing '/'), left-hand side, rhs, sense, discrete
+   flag and soft weight / penalty, and the variables the objective and the constraints bring in file order.
+   Hypotheses: members well-formed for their codec (sizes below 2^32, labels in the modelled JSON subset), rhs and
+   weight are 8 bytes, constraint labels pairwise distinct *)
+Theorem legacy_read_archive : forall obj cons,
+  MemberWF obj -> (forall c, In c cons -> ConWF c) -> NoDup (map wc_label cons) ->
+  legacy_read (legacy_archive obj cons) = Ok (lmodel_of obj cons).
+Proof. exact CqmArchive.legacy_read_archive. Qed.
+Print Assumptions legacy_read_archive.
+
+Theorem legacy_read_archive_vars : forall obj cons,
+  MemberWF obj -> (forall c, In c cons -> ConWF c) -> NoDup (map wc_label cons) ->
+  NoDup (map fst (nx_vars (member_nexpr obj))) ->
+  (forall c, In c cons -> incl (map fst (nx_vars (member_nexpr (wc_lhs c)))) (map fst (nx_vars (member_nexpr obj)))) ->
+  exists m, legacy_read (legacy_archive obj cons) = Ok m /\ lm_vars m = nx_vars (member_nexpr obj).
+Proof. exact CqmArchive.legacy_read_archive_vars. Qed.
+Print Assumptions legacy_read_archive_vars.
+
+(* the hypotheses are satisfiable on non-trivial data: objective over 'a','b' (QM), one soft constraint labelled
+   "x/y" whose left-hand side is a float32 SPIN BQM over 'b' *)
+Example legacy_archive_example :
+  let one := [0;0;0;0;0;0;240;63]%N in let zero := [0;0;0;0;0;0;0;0]%N in
+  let obj := WQm (mkQmFile F64 1%N [(VT_BINARY, (zero, one)); (VT_BINARY, (zero, one))] zero [one; zero]
+                    [[]; [(0%N, one)]] (Some [LStr [97]%N; LStr [98]%N])) in
+  let con := mkWcon (LStr [120;47;121]%N)
+                    (WBqm (mkBqmFile (2, 0)%N F32 BSPIN 0%N [0;0;0;0]%N [[0;0;128;63]%N] [[]] (Some [LStr [98]%N])))
+                    one [60;61]%N false (Some (one, [108;105;110;101;97;114]%N)) in
+  match legacy_read (legacy_archive obj [con]) with
+  | Ok m => map fst (lm_vars m) = [LStr [97]%N; LStr [98]%N] /\ length (lm_cons m) = 1
+            /\ map nx_lin (map lc_lhs (lm_cons m)) = [[one]]
+  | Err => False
+  end.
+Proof. vm_compute. repeat split; reflexivity. Qed.
+
+(* WHOLE version-2.0 archives (today's to_file / from_file), any number of variables and constraints: the reader
+   applied to the members the writer produces - varinfo, variable_labels.json (only when the labels are not range(n)),
+   objective, constraints/<json label>/{lhs, rhs, sense[, discrete][, weight, penalty]} - returns the saved record:
+   vartypes and bounds in order, the labels in order, the objective, and every constraint with its label, left-hand
+   side, rhs, sense, discrete mark and soft weight / penalty *)
+Theorem cqm2_read_archive : forall m, Cqm2WF m -> cqm2_read (length (c2_vinfo m)) (cqm2_archive m) = Ok m.
+Proof. exact CqmArchive2.cqm2_read_archive. Qed.
+Print Assumptions cqm2_read_archive.
+
+(* non-trivial instance: two variables ('a' BINARY, 'b' INTEGER 0..5) with labels, objective a + 2ab, one soft discrete-marked
+   constraint labelled "x/y" over 'a' *)
+Example cqm2_archive_example :
+  let one := [0;0;0;0;0;0;240;63]%N in let zero := [0;0;0;0;0;0;0;0]%N in let two := [0;0;0;0;0;0;0;64]%N in
+  let five := [0;0;0;0;0;0;20;64]%N in
+  let obj := mkExprFile F64 [79;98;106]%N [0%N; 1%N] zero [one; zero] [(1%N, (0%N, two))] in
+  let lhs := mkExprFile F64 [67;111;110]%N [0%N] zero [one] [] in
+  let m := mkC2model [(VT_BINARY, (zero, one)); (VT_INTEGER, (zero, five))] (Some [LStr [97]%N; LStr [98]%N]) obj
+             [mkC2con (LStr [120;47;121]%N) lhs one [61;61]%N true (Some (two, [108;105;110;101;97;114]%N))] in
+  length (cqm2_archive m) = 9 /\ match cqm2_read 2 (cqm2_archive m) with Ok m' => c2model_eqb m' m = true | Err => False end.
 Proof. vm_compute. split; reflexivity. Qed.
